@@ -143,6 +143,11 @@ def check(spec):
         if rs["interp"] in ("Quaternion", "SE3"):
             expect("is_rotation", max(float(np.max(np.abs(A.T @ A - np.eye(3)))), abs(np.linalg.det(A) - 1.0)), 1e-10,
                    f"xi={tag}")
+        # the offset point is queried before the cross-section centre at the same (qe, xi): queries in any order
+        rB = np.asarray(rod.r_OP(t, qe, xi, B), dtype=float).copy()
+        r0 = np.asarray(rod.r_OP(t, qe, xi, np.zeros(3)), dtype=float).copy()
+        expect("offset_point_is_centre_plus_rotated_offset", float(np.max(np.abs(rB - r0 - A @ B))), 1e-10 * (1 + float(np.max(np.abs(rB)))),
+               f"xi={tag}")
         if tag == "node":
             i = spec["node"]
             r_i = q[[i, i + n, i + 2 * n]]
